@@ -490,7 +490,10 @@ def as_if_never(traces, descs, limit=80):
         if not ref:
             continue
         keep = [k for k in range(len(ds)) if k not in ref]
-        t2 = builder_drv.run_descs([ds[k] for k in keep], dp=t["meta"]["dp"], exact=t["meta"]["exact"])
+        # a hook registered without an explicit style (replayed TLC behaviours) took its style from the number of events so
+        # far; the second run has fewer events, so it is told the style the first run used
+        ds2 = [dict(ds[k], style=k % 3) if ds[k]["call"] == "add_probe_hook" and "style" not in ds[k] else ds[k] for k in keep]
+        t2 = builder_drv.run_descs(ds2, dp=t["meta"]["dp"], exact=t["meta"]["exact"])
         recs.append({"a": [slim(t["ev"][k]) for k in keep], "b": [slim(e) for e in t2["ev"]], "nrefused": len(ref)})
         idx.append((i, keep))
     if not recs:
